@@ -375,14 +375,14 @@ def main(chk, args):
 
     # 1. the specification satisfies the property within the bounds; the mutants are rejected -------------------
     jobs = [('Types model check (small)', pool.submit(tlc.run, 'Types', cfg_text('Types.small.cfg'), deadlock=False, timeout=1500,
-                                                      workers=8 if quick else 16))]
+                                                      workers=8 if quick else 4))]
     jobs.append(('Types liveness (1 field)', pool.submit(tlc.run, 'Types', cfg_text('Types.live.cfg'), deadlock=False,
                                                          timeout=1500, workers=4)))
     if not quick:
         jobs.append(('Types model check (mid: 2 fields, 2 ops, wider alphabets)',
-                     pool.submit(tlc.run, 'Types', cfg_text('Types.full.cfg'), deadlock=False, timeout=2400, workers=8)))
+                     pool.submit(tlc.run, 'Types', cfg_text('Types.full.cfg'), deadlock=False, timeout=2400, workers=6)))
         jobs.append(('Types model check (deep: small scope, 3 ops)',
-                     pool.submit(tlc.run, 'Types', cfg_text('Types.deep.cfg'), deadlock=False, timeout=2400, workers=6)))
+                     pool.submit(tlc.run, 'Types', cfg_text('Types.deep.cfg'), deadlock=False, timeout=2400, workers=4)))
     muts = MUTANTS if not quick else [MUTANTS[(chk.seed + k) % len(MUTANTS)] for k in (0, 4, 8)]
     # the mutants that change what is on the wire must be caught by the behavioural invariants (round trip, presence,
     # oneof exclusivity), so the declaration-equality invariant is switched off for them
@@ -596,6 +596,8 @@ def main(chk, args):
                 continue
             diffs, first = diff_decl(exp, ev0['decl'])
             if diffs:
+                for t in ts.values():
+                    t['suspect'] = True
                 cl = classes[first] if first is not None else 'shape'
                 chk.violation(f'decl:{",".join(diffs)}:{cl}', f'{inf["full"]}: emitted class declares {ev0["decl"]}; predicted {exp}',
                               dict(subject={k: v for k, v in s.items() if k != 'scripts'}, expected=exp, observed=ev0['decl']))
@@ -622,6 +624,7 @@ def main(chk, args):
                     if evs['decode_gen']['val'] != c['out']:
                         bad.append(f"in: read through generated class {evs['decode_gen']['val']} != predicted {c['out']}")
                 if bad:
+                    t['suspect'] = True
                     which = ','.join(sorted(set(b.split(':')[0].split(' ')[0] for b in bad)))
                     chk.violation(f'roundtrip:{which}:' + ','.join(touched or ['empty']), f'{inf["full"]} ops={c["ops"]}: ' + '; '.join(bad),
                                   dict(subject={k: v for k, v in s.items() if k != 'scripts'}, case=c, trace=t['events']))
@@ -631,13 +634,21 @@ def main(chk, args):
             chk.violation(f'declare-error:module:{error_class(what)}', f'{n} classes cannot be declared: {what}', dict(error=what, classes=n))
 
     # 4. code -> spec: batched trace validation ---------------------------------------------------------------------
+    # traces that the comparison above already flagged (or that recorded an exception) go into batches of their own: a
+    # rejected trace makes TLC re-run the rest of its batch, and at most 10 rejections are followed per batch
     keep = ('kind', 'path', 'msgs', 'enums', 'fields', 'values', 'tops', 'events')
     batch = [{k: t[k] for k in keep} for t in all_traces]
-    nb = 6 if quick else 14
-    chunks = [list(range(k, len(batch), nb)) for k in range(nb)]
+    suspect = [i for i, t in enumerate(all_traces) if t.get('suspect') or any(e['ev'] == 'error' for e in t['events'])]
+    sus = set(suspect)
+    clean = [i for i in range(len(batch)) if i not in sus]
+    nb = 6 if quick else 12
+    chunks = [clean[k::nb] for k in range(nb)] + [suspect[k::2] for k in range(2)]
     chunks = [c for c in chunks if c]
+    chk.extra['traces_recorded'] = len(batch)
+    chk.extra['traces_already_flagged'] = len(suspect)
     tcfg = cfg_text('TypesTrace.cfg')
-    vfuts = [pool.submit(tlc.validate_all, 'TypesTrace', tcfg, [batch[i] for i in ch], timeout=1700) for ch in chunks]
+    vfuts = [pool.submit(tlc.validate_all, 'TypesTrace', tcfg, [batch[i] for i in ch], timeout=1700,
+                         max_rejects=(3 if quick else 10) if ch[0] in sus else 10) for ch in chunks]
     for ch, vf in zip(chunks, vfuts):
         try:
             accepted, rejected, runs = vf.result()
@@ -681,7 +692,7 @@ def main(chk, args):
     pool.shutdown()
     lap('model checking joined')
 
-    chk.extra.update(classes_declared=nclasses, subjects=len(subjects), packs=len(results),
+    chk.extra.update(message_traces=nclasses, subjects=len(subjects), packs=len(results),
                      shapes=dict(one=len(cases_one), small=len(cases_small), sim=len(cases_sim)),
                      reserved_names=len(reserved))
     chk.rule = ('cases = message shapes chosen by TLC (Types.emit.one: one field over every scalar/enum/message kind x '
